@@ -121,6 +121,12 @@ def gen_project(rng, nmin=3, nmax=7, features=None):
                     ent["forward"] = True
                 if "depenv" in features and rng.random() < 0.4:
                     ent["environment"] = {rng.choice(VARPOOL): "e%d" % rng.randrange(100)}
+                if "substenv" in features and rng.random() < 0.4:
+                    # value computed from another variable (touches it only when evaluated)
+                    ent.setdefault("environment", {})[rng.choice(VARPOOL)] = "${%s:-none}-s" % rng.choice(VARPOOL)
+                if "ifdeps" in features and rng.random() < 0.35:
+                    v = rng.choice(VARPOOL)
+                    ent["if"] = rng.choice(['${%s:-}' % v, '$(eq,"${%s:-}","d1")' % v, '$(ne,"${%s:-x}","x")' % v])
                 r["depends"].append(ent)
         if "vars" in features:
             for v in rng.sample(VARPOOL, rng.randint(0, 2)):
@@ -146,6 +152,61 @@ def gen_project(rng, nmin=3, nmax=7, features=None):
         model["recipes"][name] = r
         if "shared" in features and rng.random() < 0.4 and idx and _deterministic(model, name):
             r["shared"] = True
+    if "inhtools" in features and n >= 5:
+        # A consumer X that takes "toolA" from whoever is above it: below root it is
+        # provided by P1, below the intermediate recipe Y by P2.  X is reached on both
+        # paths with identical environment but different tools.
+        X, P1, P2, Y = names[-1], names[-2], names[-3], names[1]
+        for P in (P1, P2):
+            pr = model["recipes"][P]
+            pr["depends"] = []
+            pr["provideDeps"] = []
+            pr["buildTools"] = []
+            pr["provideTools"] = {"toolA": {"path": rng.choice([".", "sub"]), "libs": rng.choice([[], ["."]])}}
+        xr = model["recipes"][X]
+        xr["provideTools"] = {k: v for k, v in xr["provideTools"].items() if k != "toolA"}
+        xr["inhTools"] = ["toolA"]
+        def put_first(rname, dep, tools):
+            r = model["recipes"][rname]
+            r["depends"] = [d for d in r["depends"] if d["name"] != dep]
+            ent = {"name": dep, "use": ["result", "deps"] + (["tools"] if tools else [])}
+            if tools:
+                ent["forward"] = True
+                r["depends"].insert(0, ent)
+            else:
+                r["depends"].append(ent)
+        put_first("root", P1, True)
+        put_first("root", X, False)
+        if Y not in (X, P1, P2):
+            put_first(Y, P2, True)
+            put_first(Y, X, False)
+            put_first("root", Y, False)
+            if rng.random() < 0.5:
+                model["recipes"][Y]["inhTools"] = ["toolA"]
+        for other in names[1:-3]:
+            if other != Y and rng.random() < 0.3:
+                model["recipes"][other]["inhTools"] = ["toolA"]
+    base_names = list(names)
+    if "weaktool" in features:
+        # provider of a tool that is only consumed weakly
+        model["recipes"]["pw"] = _leaf(rng)
+        model["recipes"]["pw"]["provideTools"] = {"toolW": {"path": ".", "libs": []}}
+        model["order"].append("pw")
+        model["recipes"]["root"]["depends"].insert(0, {"name": "pw", "use": ["tools"], "forward": True})
+        for x in base_names[1:]:
+            if rng.random() < 0.5:
+                model["recipes"][x]["buildToolsWeak"] = ["toolW"]
+        model["recipes"]["root"]["buildToolsWeak"] = ["toolW"]
+    if "sandbox" in features:
+        model["recipes"]["sbx"] = _leaf(rng)
+        model["recipes"]["sbx"]["provideSandbox"] = {"paths": ["/usr/bin", "/bin"]}
+        model["order"].append("sbx")
+        model["recipes"]["root"]["depends"].insert(0, {"name": "sbx", "use": ["sandbox"], "forward": True})
+    if "weakvar" in features:
+        model["default_env"]["VW"] = "w%d" % rng.randrange(100)
+        for x in base_names:
+            if rng.random() < 0.6:
+                model["recipes"][x]["buildVarsWeak"] = sorted(set(model["recipes"][x]["buildVarsWeak"]) | {"VW"})
     # tool consumption: a recipe may use tools it can see (from deps with use: tools)
     for name in names:
         r = model["recipes"][name]
@@ -158,6 +219,13 @@ def gen_project(rng, nmin=3, nmax=7, features=None):
             if rng.random() < 0.3:
                 r["packageTools"] = sorted(set(rng.sample(vis, rng.randint(0, len(vis)))))
     return model
+
+def _leaf(rng):
+    return {"salt": {"checkout": "%x" % rng.getrandbits(24), "build": "%x" % rng.getrandbits(24),
+                     "package": "%x" % rng.getrandbits(24)},
+            "depends": [], "environment": {}, "checkoutVars": [], "buildVars": [], "packageVars": [],
+            "buildVarsWeak": [], "provideVars": {}, "provideTools": {}, "provideDeps": [],
+            "buildTools": [], "packageTools": [], "inherit": [], "src": None, "build": True, "shared": False}
 
 def _deterministic(model, name, seen=None):
     """No import SCM (indeterministic by Bob's definition) in the closure."""
@@ -207,7 +275,7 @@ def _yaml_recipe(name, r, model):
     if r["depends"]:
         deps = []
         for e in r["depends"]:
-            if e["use"] == ["result", "deps"] and not e.get("forward") and not e.get("environment"):
+            if e["use"] == ["result", "deps"] and not e.get("forward") and not e.get("environment") and not e.get("if"):
                 deps.append(e["name"])
             else:
                 x = {"name": e["name"], "use": list(e["use"])}
@@ -215,6 +283,8 @@ def _yaml_recipe(name, r, model):
                     x["forward"] = True
                 if e.get("environment"):
                     x["environment"] = dict(e["environment"])
+                if e.get("if"):
+                    x["if"] = e["if"]
                 deps.append(x)
         d["depends"] = deps
     if r["src"] == "import":
@@ -231,12 +301,13 @@ def _yaml_recipe(name, r, model):
     if r.get("relocatable") is False:
         d["relocatable"] = False
     if r["build"]:
-        d["buildScript"] = _build_script(name, r["salt"]["build"], r["buildTools"], r["buildVarsWeak"])
+        d["buildScript"] = _build_script(name, r["salt"]["build"], sorted(set(r["buildTools"]) | set(r.get("inhTools", []))),
+                                         r["buildVarsWeak"])
         if r.get("fingerprint"):
             d["buildScript"] += 'IFS= read -r h < "%s"\necho "built-on-host=$h" >> b-%s.txt\n' % (hf, r["salt"]["build"])
     d["packageScript"] = _package_script(name, r["salt"]["package"], r["packageTools"], r["buildVarsWeak"])
-    if r["buildTools"]:
-        d["buildTools"] = list(r["buildTools"])
+    if r["buildTools"] or r.get("inhTools"):
+        d["buildTools"] = sorted(set(r["buildTools"]) | set(r.get("inhTools", [])))
     if r["packageTools"]:
         d["packageTools"] = list(r["packageTools"])
     if r["provideVars"]:
@@ -247,6 +318,12 @@ def _yaml_recipe(name, r, model):
         d["provideDeps"] = list(r["provideDeps"])
     if r["shared"]:
         d["shared"] = True
+    for k in ("buildToolsWeak", "provideSandbox", "metaEnvironment", "packageAuditFiles"):
+        if r.get(k):
+            d[k] = copy.deepcopy(r[k])
+    for k in ("buildNetAccess", "packageNetAccess", "jobServer"):
+        if r.get(k):
+            d[k] = True
     return yaml.safe_dump(d, default_flow_style=False, sort_keys=True)
 
 def _yaml_class(name, c):
@@ -382,6 +459,19 @@ def gen_edit(rng, model, history, kinds=None):
             return {"kind": "revert", "to": rng.randrange(len(history))}
     return None
 
+NEUTRAL_EDITS = ["n_metaenv", "n_netaccess", "n_jobserver", "n_auditfiles", "n_weakvar"]
+
+def gen_neutral_edit(rng, model):
+    """Edits that must not change any Variant-Id or Build-Id."""
+    k = rng.choice(NEUTRAL_EDITS)
+    r = rng.choice([n for n in model["order"]])
+    if k == "n_weakvar":
+        if "VW" not in model["default_env"]:
+            k = "n_metaenv"
+        else:
+            return {"kind": k, "value": "w%d" % rng.randrange(1000, 2000)}
+    return {"kind": k, "recipe": r, "value": "m%d" % rng.randrange(1000)}
+
 def apply_edit(model, edit, history):
     """Apply edit to a *copy* of model; returns the new model (or the old one
     if the edit is not applicable any more, e.g. after shrinking)."""
@@ -418,7 +508,23 @@ def apply_edit(model, edit, history):
             if len(left) > 1:
                 m["sources"].pop(edit["path"], None)
             return m
+        if k == "n_weakvar":
+            m["default_env"]["VW"] = edit["value"]
+            return m
         r = m["recipes"][edit["recipe"]]
+        if k == "n_metaenv":
+            r.setdefault("metaEnvironment", {})["LICENSE"] = edit["value"]
+            return m
+        if k == "n_netaccess":
+            r["buildNetAccess"] = not r.get("buildNetAccess", False)
+            r["packageNetAccess"] = not r.get("packageNetAccess", False)
+            return m
+        if k == "n_jobserver":
+            r["jobServer"] = not r.get("jobServer", False)
+            return m
+        if k == "n_auditfiles":
+            r["packageAuditFiles"] = {"NOTE": "note-%s.txt" % edit["value"]}
+            return m
         if k == "salt":
             r["salt"][edit["step"]] = edit["value"]
         elif k == "var_value":
